@@ -289,4 +289,12 @@ def countLe (es : List IdxEntry) (b : Nat) : Nat := (es.filter (fun e => decide 
 
 deriving instance DecidableEq for Except
 
+/-- The complete file `write_pack_index_v2` writes for accepted input. -/
+def v2File (H : Bytes → Bytes) (es : List IdxEntry) (cs : Bytes) : Bytes := v2Body es cs ++ H (v2Body es cs)
+
+/-- What `loadIndex hs (v2File H es cs)` returns (`Lemmas.PackIndex.load_v2`): version 2, the fan-out
+table of cumulative bucket counts, `len = #entries`. -/
+def v2Idx (H : Bytes → Bytes) (es : List IdxEntry) (cs : Bytes) (hs : Nat) : Idx :=
+  ⟨2, hs, v2File H es cs, (List.range' 0 256).map (cumul es), es.length, Gen.Pack.v2NameAt⟩
+
 end Dulwich.PackIndex
